@@ -34,13 +34,13 @@ COMPONENTS = {"real": ["setigen.voltage.backend (record, _make_header, header po
                        "blimpy.guppi.GuppiRaw", "real files in a per-run scratch dir"],
               "stub": ["glob seam (listing order)", "open() wrapper (faults)", "SimClock", "tqdm shim"]}
 ASSUMPTIONS = ["generated string values are non-empty printable ASCII without quotes or '=' (blimpy's card splitter cannot "
-               "parse '='), numeric values are finite ints/floats, keys avoid END",
+               "parse '='), numeric values are finite ints/floats; keywords merely starting with END (ENDTIME) are generated but blimpy, which stops at them, is not consulted for those headers",
                "DIRECTIO restricted to 0/1 as in the statement (blimpy pads only for exactly 1)",
                "a torn file left by an injected fault is not judged; the retried recording is"]
 PROBES = ["header_cards_mod32==0", "directio_pad_0_bytes", "directio_off_unaligned", "multi_file_last_partial",
           "listing_last_is_not_highest", "override_attempted", "default_header_argument", "template_loaded",
           "record_after_aborted_record", "array_source", "reducer_compared", "single_antenna_user_nants",
-          "blimpy_full_walk"]
+          "blimpy_full_walk", "end_prefixed_key"]
 
 OWNED = ["NBITS", "NPOL", "OBSNCHAN", "NANTS", "BLOCSIZE", "TBIN", "CHAN_BW", "OBSBW", "OBSFREQ", "SCANLEN"]
 STR_POOL = ["x", "hello", "GBT", "some value", "a.b", "1e5", "B0329+54", "with  two  spaces", "UPPER_lower-09",
@@ -69,6 +69,9 @@ def gen_header(rng, n_pad=None):
         cards["PKTIDX"] = rng.choice([0, 7, 1000, 2 ** 33])
         if rng.random() < 0.5:
             cards["PKTSTART"] = rng.choice([0, cards["PKTIDX"], 5])
+    if rng.random() < 0.1:
+        # a valid keyword that merely starts with the letters END
+        cards[rng.choice(["ENDTIME", "ENDIAN", "END_1"])] = rng.choice([1, 2.5, "x"])
     for k in ("TELESCOP", "OBSERVER", "SRC_NAME"):
         if rng.random() < 0.15:
             cards[k] = rng.choice(["GBT", "me", "VOYAGER1"])
@@ -315,7 +318,10 @@ def judge_recording(ctx, sc, ant, el, be, backend, stem, op, user_cards, used_de
     if op.get("template"):
         ctx.hit("template_loaded")
     # ---- (3) blimpy --------------------------------------------------------------
-    _judge_blimpy(ctx, files, blocks)
+    if any(k.startswith("END") for k in h0):
+        ctx.hit("end_prefixed_key")      # blimpy stops at any card starting with END: its limitation, not judged
+    else:
+        _judge_blimpy(ctx, files, blocks)
     if ctx.violations:
         return blocks
     # ---- (4) setigen's own readers under listing orders ---------------------------
